@@ -101,6 +101,11 @@ type Config struct {
 	// Paranoid verifies on every sim call that the calling goroutine is the task the
 	// scheduler believes is running (goroutine-id lookup; slow).
 	Paranoid bool
+	// ForceStall*: set the named task aside for ForceStallDur when it is about to take its
+	// ForceStallStep-th step (once): fault F13 placed on purpose, for injection sweeps.
+	ForceStallTask string
+	ForceStallStep int
+	ForceStallDur  time.Duration
 }
 
 type PanicInfo struct {
@@ -155,6 +160,7 @@ type Sched struct {
 	pctChg   []int
 	goids    []goidEntry
 	stalled  int
+	forcedStall bool
 	inStable bool
 	prefer   *Task
 	mainFn   func()
@@ -594,6 +600,20 @@ func (s *Sched) loop() {
 		if s.last != nil && s.last != t && s.last.state == tsReady {
 			s.out.Preemptions++
 		}
+		if s.cfg.ForceStallTask != "" && !s.forcedStall && t.Name == s.cfg.ForceStallTask && t.Steps+1 == s.cfg.ForceStallStep {
+			s.forcedStall = true
+			s.ready = append(s.ready[:i], s.ready[i+1:]...)
+			t.state = tsBlockedSim
+			t.waitOn = "stalled"
+			s.out.Stalls++
+			s.stalled++
+			s.mu.Unlock()
+			raceEnable()
+			d := s.cfg.ForceStallDur
+			time.AfterFunc(d, func() { s.unstall(t) })
+			raceDisable()
+			continue
+		}
 		// F13: set the chosen task aside for a fake duration instead of running it.
 		if sp := s.cfg.Strategy.StallPermille; sp > 0 && !t.Harness && s.choose(StStall, 1000) < sp {
 			d := time.Duration(1+s.choose(StStall, s.cfg.Strategy.StallMaxMs+1)) * time.Millisecond
@@ -708,6 +728,15 @@ func GoNamed(name string, f func()) *Task {
 	s := S
 	s.current()
 	return s.spawn(name, 0, true, f)
+}
+
+// GoNamedStallable starts a named task that fault F13 may set aside like a goroutine of the
+// system under test (a request handler is one).
+//go:norace
+func GoNamedStallable(name string, f func()) *Task {
+	s := S
+	s.current()
+	return s.spawn(name, 0, false, f)
 }
 
 // Yield is a scheduling point.
